@@ -107,7 +107,12 @@ def combos(chk, tier):
     (d / "commons.krome").write_text("@common:user_crate,user_av2\n@common: user_fsh\n@common:user_tdust\n@var:kdust = 1.0d-3*user_av2\n"
                                      "@format:idx,R,R,R,P,P,P,P,Tmin,Tmax,rate\n1,H,E,,H+,E,E,,NONE,NONE,user_crate*1.0d-10*Te\n"
                                      "2,H+,E,,H,,,,NONE,NONE,3.0d-12*user_fsh*invTe\n3,H,H,,H2,,,,NONE,NONE,kdust*1.0d-17*sqrt(user_tdust)\n")
+    # a header that assigns a variable twice, with a dependent variable in between (KROME executes the three lines in order)
+    (d / "reassign.krome").write_text("@var:tscale = Tgas/1d2\n@var:fcorr = 1d0 + 0.5d0*tscale\n@var:tscale = Tgas/3d2\n"
+                                      "@format:idx,R,R,R,P,P,P,P,Tmin,Tmax,rate\n1,H,E,,H+,E,E,,NONE,NONE,1.0d-10*fcorr\n"
+                                      "2,H+,E,,H,,,,NONE,NONE,3.0d-12*tscale\n")
     KE = dict(elements=["E", "H"], pseudo_elements=["g"])
+    out.append(("krome-var-reassigned+nograin", [d / "reassign.krome"], ["krome"], "", {}, KE))
     out.append(("krome-late-directives+nograin", [d / "late.krome"], ["krome"], "", {}, KE))
     out.append(("krome-several-commons+nograin", [d / "commons.krome"], ["krome"], "", {}, KE))
     out.append(("krome-two-files+nograin", [d / "first.krome", d / "second.krome"], ["krome", "krome"], "", {}, KE))
